@@ -190,6 +190,11 @@ BOUNDS_EXC = {
     ("buffertk::varint::v64::unpack_slow", "range"): (1,
         "`&buf[idx..]` after `idx += 1` that directly follows the successful `buf[idx]` read: idx <= buf.len()"),
 }
+OVERFLOW_EXC = {
+    ("<prototk::field_types::message as buffertk::Unpackable>::unpack", "Sub"): (1,
+        "`v - empty.len()` inside error construction: `empty` is the unconsumed suffix that M::unpack returned for buf = rem[..v] "
+        "(the Unpackable contract: the remainder is a suffix of the input), so empty.len() <= v"),
+}
 RERR_EXC = {
     ("<core::result::Result as buffertk::Unpackable>::unpack", "unwrap(<varint::v64 as convert::TryInto>::try_into)"):
         "tag.try_into().unwrap() directly follows `if tag > u32::MAX { return Err(tag_too_large) }`",
@@ -231,6 +236,8 @@ def c152(ctx):
     nb, pb = K.bounds_audit(ctx, R + "b", audit, BOUNDS_EXC)
     ctx.declare(R + "b", "decoding never indexes a buffer beyond the length a dominating comparison established for that same buffer")
     ctx.floor(R + "b", "index / slice sites on the decode path", nb, 20)
+    no = K.overflow_audit(ctx, R + "b", audit, OVERFLOW_EXC)
+    ctx.floor(R + "b", "arithmetic on decoded lengths", no, 2)
     # interprocedural precondition of the unrolled varint decoder: every caller has established buf.len() >= 10 and SZ <= 10
     from blue import bounds as B
     ncall = 0
